@@ -68,6 +68,37 @@ func TestColdStart(t *testing.T) {
 
 func TestMain(m *testing.M) { vk.Main(m, "C01") }
 
+// TestFirst runs right after the cold-start probe, before any larger input has been seen: index lengths in
+// ASCENDING order around every power of two. A buffer that the library grows and reuses (pool, slab, scratch)
+// then passes through every capacity step exactly when an index of that length is built.
+func TestFirst(t *testing.T) {
+	vk.SetPhase("first")
+	shard := 0
+	// lengths around every power of two up to 1024 words (index lengths that coincide with the
+	// capacity steps of any growing or pooled buffer), dense and mixed content
+	if shard == 0 {
+		for k := 0; k <= 10; k++ {
+			for d := -2; d <= 2; d++ {
+				n := 1<<uint(k) + d
+				if n < 0 {
+					continue
+				}
+				for style := 0; style < 2; style++ {
+					w := make(vk.Words, n)
+					for i := range w {
+						if style == 0 {
+							w[i] = ^uint64(0)
+						} else {
+							w[i] = vk.Mix(uint64(n)*977 + uint64(i))
+						}
+					}
+					checker.Run(t, Case{Words: w, Style: "grid-pow2-length"})
+				}
+			}
+		}
+	}
+}
+
 // Case is one bitmap plus, for large bitmaps, the sampled probe positions.
 type Case struct {
 	Max    int          `json:"max,omitempty"` // v+1: the maximum bitmap, exactly 2^25 words = 2^31 bits, description v (gen.UseMax)
@@ -476,34 +507,6 @@ func TestGrid(t *testing.T) {
 			checker.Run(t, Case{Words: w, Style: "grid"})
 		}
 	}
-	// lengths around every power of two up to 1024 words (index lengths that coincide with the
-	// capacity steps of any growing or pooled buffer), dense and mixed content
-	if shard == 0 {
-		for k := 0; k <= 10; k++ {
-			for d := -2; d <= 2; d++ {
-				n := 1<<uint(k) + d
-				if n < 0 {
-					continue
-				}
-				for style := 0; style < 2; style++ {
-					w := make(vk.Words, n)
-					for i := range w {
-						if style == 0 {
-							w[i] = ^uint64(0)
-						} else {
-							w[i] = vk.Mix(uint64(n)*977 + uint64(i))
-						}
-					}
-					checker.Run(t, Case{Words: w, Style: "grid-pow2-length"})
-				}
-			}
-		}
-	}
-	if shard == 0 {
-		for v := 0; v < gen.MaxVariants; v++ { // exactly 2^31 bits: the largest positions an int32 holds
-			checker.Run(t, Case{Max: v + 1, Style: "maximum"})
-		}
-	}
 	// a few very large bitmaps in every run (ranks above 2^16 / 2^22; size thresholds of any fast path)
 	if shard == 0 {
 		for style := 0; style <= 5; style++ {
@@ -518,4 +521,15 @@ func TestGrid(t *testing.T) {
 		}
 	}
 	vk.MarkExhaustive("all bitmaps of 0.." + fmtInt(int64(maxLen)) + " words over a 12-word palette x all positions")
+}
+
+// TestLast runs at the very end of the process: the maximum bitmap (exactly 2^31 bits: the largest positions an
+// int32 holds) and the regression cases of that size. Huge inputs come last so that what they leave behind in the
+// library cannot mask anything the ordinary cases would have met.
+func TestLast(t *testing.T) {
+	vk.SetPhase("last")
+	for v := 0; v < gen.MaxVariants; v++ {
+		checker.Run(t, Case{Max: v + 1, Style: "maximum"})
+	}
+	checker.RegressLast(t)
 }
